@@ -1,0 +1,858 @@
+//go:build verif
+// +build verif
+
+package main
+
+// Verification hook for properties C12 (a published message depends only on
+// its own datagram: buffer ownership under every schedule) and C13 (each
+// received datagram is accounted for and published at most once).
+//
+// Runner protocol: case lines are read from the file $VERIF_IN, one line
+// "<implLine>\t<verdict>" per case is appended to the file $VERIF_OUT.
+//
+//	pipeline <proto> <workers> <setup> <data>
+//	  token = <class>,<srcaddr-hex>,<datagram-hex>   (';'-separated, setup may be "-")
+//
+// Design (everything below the test socket is the REAL code):
+//   - opts/logger are filled once; each protocol's collector object is created
+//     with its constructor and `go x.run()` is started lazily, once per process,
+//     with <proto>Workers = 0 so that run() itself starts no worker. run() binds
+//     127.0.0.1:<free port>, and its read loop (buffer pool Get, ReadFromUDP,
+//     UDPCount++, UDP channel send) is the one under test. Datagrams are sent
+//     through loopback UDP sockets bound to the 127.0.0.x source address of the
+//     token, so UDPCount and raddr are produced by the real read loop.
+//   - per case <workers> goroutines are started exactly as run() starts them
+//     (wQuit := make(chan struct{}); x.pool <- wQuit; x.<proto>Worker(wQuit))
+//     and stopped as dynWorkers() stops them (wQuit := <-x.pool; close(wQuit)).
+//   - a drainer goroutine plays the producer: it receives from the protocol's
+//     MQ channel and keeps the slices as received; they are compared at the END
+//     of the case (an aliased, reused buffer would have changed by then).
+//   - quiescence is detected without timing assumptions: after the N data
+//     datagrams one extra 1-octet SENTINEL datagram is sent (it decodes to "no
+//     message" in all four protocols: it is counted by UDPCount only). The read
+//     loop is sequential, so once UDPCount has grown by N+1 the N-th datagram
+//     IS in the UDP channel; once additionally len(UDP channel)==0 was observed
+//     all N were dequeued; a worker looks at its quit channel only at the top
+//     of its loop, so after all workers have exited every dequeued datagram has
+//     been processed completely (counter and non-blocking publish included).
+//     The sentinel is subtracted again in the implLine (udp=N is printed when
+//     UDPCount grew by N+1).
+//   - the oracle compares the multiset of published payloads with the solo
+//     decode of every data datagram (same packages, private template cache fed
+//     with the setup datagrams of the case only).
+
+import (
+	"bufio"
+	"bytes"
+	"encoding/hex"
+	"encoding/json"
+	"fmt"
+	"io/ioutil"
+	"log"
+	"net"
+	"os"
+	"path/filepath"
+	"regexp"
+	"runtime"
+	"strconv"
+	"strings"
+	"sync"
+	"sync/atomic"
+	"testing"
+	"time"
+
+	"github.com/EdgeCast/vflow/ipfix"
+	netflow5 "github.com/EdgeCast/vflow/netflow/v5"
+	netflow9 "github.com/EdgeCast/vflow/netflow/v9"
+	"github.com/EdgeCast/vflow/sflow"
+)
+
+const (
+	vpCaseWatchdog = 60 * time.Second
+	vpSetupTimeout = 5 * time.Second
+	vpDataTimeout  = 30 * time.Second
+	vpMaxInFlight  = 16  // datagrams sent but not yet counted by the read loop (socket buffer)
+	vpMaxUDPQueue  = 300 // len(<proto>UDPCh) bound while sending (capacity 1000)
+	vpMaxMQQueue   = 500 // len(<proto>MQCh) bound while sending (capacity 1000, non-blocking enqueue)
+)
+
+type vpToken struct {
+	class byte
+	src   [4]byte
+	body  []byte
+}
+
+// result of the solo decode of one datagram
+type vpSolo struct {
+	class   byte   // x t m d
+	counts  bool   // the worker would increment DecodedCount
+	payload []byte // class d only
+}
+
+type vpProto struct {
+	name     string
+	port     int
+	started  bool
+	run      func()        // the real run()
+	udpCount func() uint64 // atomic load of stats.UDPCount
+	decCount func() uint64 // atomic load of stats.DecodedCount
+	udpLen   func() int    // len(<proto>UDPCh)
+	takeUDP  func() bool   // non-blocking receive from <proto>UDPCh
+	mq       chan []byte   // <proto>MQCh
+	worker   func()        // wQuit := make(...); x.pool <- wQuit; x.<proto>Worker(wQuit)
+	stopOne  func()        // wQuit := <-x.pool; close(wQuit)
+	newSolo  func(cachePath string) func(ip net.IP, body []byte) vpSolo
+	conns    map[[4]byte]*net.UDPConn // sending sockets by source address
+	wg       sync.WaitGroup           // running workers
+	nWorkers int
+}
+
+var (
+	vpTmpDir  string
+	vpIPForm  int // len(raddr.IP) the collectors see (4 or 16)
+	vpProtos  map[string]*vpProto
+	vpColTime = regexp.MustCompile(`"ColTime":-?[0-9]+`)
+	// set when workers could not be stopped: the process is not reusable
+	vpDirty int32
+)
+
+func vpIP(src [4]byte) net.IP {
+	if vpIPForm == 16 {
+		return net.IPv4(src[0], src[1], src[2], src[3])
+	}
+	ip := make(net.IP, 4)
+	copy(ip, src[:])
+	return ip
+}
+
+// vpWait polls cond until it holds or the deadline has passed.
+func vpWait(deadline time.Time, cond func() bool) bool {
+	for i := 0; ; i++ {
+		if cond() {
+			return true
+		}
+		if i < 200 {
+			runtime.Gosched()
+			continue
+		}
+		if time.Now().After(deadline) {
+			return cond()
+		}
+		if i < 2000 {
+			time.Sleep(20 * time.Microsecond)
+		} else {
+			time.Sleep(500 * time.Microsecond)
+		}
+	}
+}
+
+func vpFreePorts(n int) []int {
+	var ls []*net.UDPConn
+	var ports []int
+	for i := 0; i < n; i++ {
+		l, err := net.ListenUDP("udp", &net.UDPAddr{IP: net.IPv4(127, 0, 0, 1)})
+		if err != nil {
+			panic("verif: no free UDP port: " + err.Error())
+		}
+		ls = append(ls, l)
+		ports = append(ports, l.LocalAddr().(*net.UDPAddr).Port)
+	}
+	for _, l := range ls {
+		l.Close()
+	}
+	return ports
+}
+
+// vpLearnIPForm receives one datagram on a socket created the way run()
+// creates its socket and reports the length of raddr.IP (the template cache
+// key is built from these raw bytes).
+func vpLearnIPForm() int {
+	udpAddr, _ := net.ResolveUDPAddr("udp", net.JoinHostPort("127.0.0.1", "0"))
+	l, err := net.ListenUDP("udp", udpAddr)
+	if err != nil {
+		panic("verif: " + err.Error())
+	}
+	defer l.Close()
+	c, err := net.DialUDP("udp4", &net.UDPAddr{IP: net.IPv4(127, 0, 0, 2)}, l.LocalAddr().(*net.UDPAddr))
+	if err != nil {
+		panic("verif: cannot send from 127.0.0.2: " + err.Error())
+	}
+	defer c.Close()
+	c.Write([]byte{0})
+	l.SetReadDeadline(time.Now().Add(5 * time.Second))
+	b := make([]byte, 16)
+	_, raddr, err := l.ReadFromUDP(b)
+	if err != nil {
+		panic("verif: loopback receive: " + err.Error())
+	}
+	return len(raddr.IP)
+}
+
+func vpSetup(outDir string) {
+	var err error
+	vpTmpDir, err = ioutil.TempDir(outDir, "vpipe-")
+	if err != nil {
+		panic("verif: " + err.Error())
+	}
+	ports := vpFreePorts(4)
+	lg := log.New(ioutil.Discard, "", 0)
+	logger = lg
+	opts = &Options{
+		Verbose:    false,
+		DynWorkers: false,
+		Logger:     lg,
+
+		SFlowEnabled:    true,
+		SFlowPort:       ports[0],
+		SFlowAddr:       "127.0.0.1",
+		SFlowUDPSize:    1500,
+		SFlowWorkers:    0,
+		SFlowMirrorAddr: "",
+		SFlowTypeFilter: []uint32{},
+
+		IPFIXEnabled:      true,
+		IPFIXRPCEnabled:   false,
+		IPFIXPort:         ports[1],
+		IPFIXAddr:         "127.0.0.1",
+		IPFIXUDPSize:      1500,
+		IPFIXWorkers:      0,
+		IPFIXMirrorAddr:   "",
+		IPFIXTplCacheFile: filepath.Join(vpTmpDir, "ipfix.templates"),
+
+		NetflowV5Enabled: true,
+		NetflowV5Port:    ports[2],
+		NetflowV5Addr:    "127.0.0.1",
+		NetflowV5UDPSize: 1500,
+		NetflowV5Workers: 0,
+
+		NetflowV9Enabled:      true,
+		NetflowV9Port:         ports[3],
+		NetflowV9Addr:         "127.0.0.1",
+		NetflowV9UDPSize:      1500,
+		NetflowV9Workers:      0,
+		NetflowV9TplCacheFile: filepath.Join(vpTmpDir, "netflowv9.templates"),
+
+		ProducerEnabled: false,
+		MQName:          "none",
+		MQConfigFile:    "mq.conf",
+		VFlowConfigPath: vpTmpDir,
+	}
+	vpIPForm = vpLearnIPForm()
+
+	vpProtos = map[string]*vpProto{}
+
+	{
+		x := NewIPFIX()
+		p := &vpProto{name: "ipfix", port: opts.IPFIXPort, mq: ipfixMQCh}
+		p.run = x.run
+		p.udpCount = func() uint64 { return atomic.LoadUint64(&x.stats.UDPCount) }
+		p.decCount = func() uint64 { return atomic.LoadUint64(&x.stats.DecodedCount) }
+		p.udpLen = func() int { return len(ipfixUDPCh) }
+		p.takeUDP = func() bool {
+			select {
+			case <-ipfixUDPCh:
+				return true
+			default:
+				return false
+			}
+		}
+		p.worker = func() {
+			wQuit := make(chan struct{})
+			x.pool <- wQuit
+			x.ipfixWorker(wQuit)
+		}
+		p.stopOne = func() {
+			wQuit := <-x.pool
+			close(wQuit)
+		}
+		p.newSolo = func(cachePath string) func(net.IP, []byte) vpSolo {
+			cache := ipfix.GetCache(cachePath)
+			return func(ip net.IP, body []byte) vpSolo {
+				msg, _ := ipfix.NewDecoder(ip, body).Decode(cache)
+				if msg == nil {
+					return vpSolo{class: 'x'}
+				}
+				if !(len(msg.DataSets) > 0) {
+					return vpSolo{class: 't', counts: true}
+				}
+				b, err := msg.JSONMarshal(new(bytes.Buffer))
+				if err != nil {
+					return vpSolo{class: 'm', counts: true}
+				}
+				return vpSolo{class: 'd', counts: true, payload: append([]byte{}, b...)}
+			}
+		}
+		vpProtos[p.name] = p
+	}
+	{
+		x := NewNetflowV9()
+		p := &vpProto{name: "v9", port: opts.NetflowV9Port, mq: netflowV9MQCh}
+		p.run = x.run
+		p.udpCount = func() uint64 { return atomic.LoadUint64(&x.stats.UDPCount) }
+		p.decCount = func() uint64 { return atomic.LoadUint64(&x.stats.DecodedCount) }
+		p.udpLen = func() int { return len(netflowV9UDPCh) }
+		p.takeUDP = func() bool {
+			select {
+			case <-netflowV9UDPCh:
+				return true
+			default:
+				return false
+			}
+		}
+		p.worker = func() {
+			wQuit := make(chan struct{})
+			x.pool <- wQuit
+			x.netflowV9Worker(wQuit)
+		}
+		p.stopOne = func() {
+			wQuit := <-x.pool
+			close(wQuit)
+		}
+		p.newSolo = func(cachePath string) func(net.IP, []byte) vpSolo {
+			cache := netflow9.GetCache(cachePath)
+			return func(ip net.IP, body []byte) vpSolo {
+				msg, _ := netflow9.NewDecoder(ip, body).Decode(cache)
+				if msg == nil {
+					return vpSolo{class: 'x'}
+				}
+				if !(msg.DataSets != nil) {
+					return vpSolo{class: 't', counts: true}
+				}
+				b, err := msg.JSONMarshal(new(bytes.Buffer))
+				if err != nil {
+					return vpSolo{class: 'm', counts: true}
+				}
+				return vpSolo{class: 'd', counts: true, payload: append([]byte{}, b...)}
+			}
+		}
+		vpProtos[p.name] = p
+	}
+	{
+		x := NewNetflowV5()
+		p := &vpProto{name: "v5", port: opts.NetflowV5Port, mq: netflowV5MQCh}
+		p.run = x.run
+		p.udpCount = func() uint64 { return atomic.LoadUint64(&x.stats.UDPCount) }
+		p.decCount = func() uint64 { return atomic.LoadUint64(&x.stats.DecodedCount) }
+		p.udpLen = func() int { return len(netflowV5UDPCh) }
+		p.takeUDP = func() bool {
+			select {
+			case <-netflowV5UDPCh:
+				return true
+			default:
+				return false
+			}
+		}
+		p.worker = func() {
+			wQuit := make(chan struct{})
+			x.pool <- wQuit
+			x.netflowV5Worker(wQuit)
+		}
+		p.stopOne = func() {
+			wQuit := <-x.pool
+			close(wQuit)
+		}
+		p.newSolo = func(cachePath string) func(net.IP, []byte) vpSolo {
+			return func(ip net.IP, body []byte) vpSolo {
+				msg, _ := netflow5.NewDecoder(ip, body).Decode()
+				if msg == nil {
+					return vpSolo{class: 'x'}
+				}
+				if !(msg.Flows != nil) {
+					return vpSolo{class: 't', counts: true}
+				}
+				b, err := msg.JSONMarshal(new(bytes.Buffer))
+				if err != nil {
+					return vpSolo{class: 'm', counts: true}
+				}
+				return vpSolo{class: 'd', counts: true, payload: append([]byte{}, b...)}
+			}
+		}
+		vpProtos[p.name] = p
+	}
+	{
+		x := NewSFlow()
+		p := &vpProto{name: "sflow", port: opts.SFlowPort, mq: sFlowMQCh}
+		p.run = x.run
+		p.udpCount = func() uint64 { return atomic.LoadUint64(&x.stats.UDPCount) }
+		p.decCount = func() uint64 { return atomic.LoadUint64(&x.stats.DecodedCount) }
+		p.udpLen = func() int { return len(sFlowUDPCh) }
+		p.takeUDP = func() bool {
+			select {
+			case <-sFlowUDPCh:
+				return true
+			default:
+				return false
+			}
+		}
+		p.worker = func() {
+			wQuit := make(chan struct{})
+			x.pool <- wQuit
+			x.sFlowWorker(wQuit)
+		}
+		p.stopOne = func() {
+			wQuit := <-x.pool
+			close(wQuit)
+		}
+		p.newSolo = func(cachePath string) func(net.IP, []byte) vpSolo {
+			return func(ip net.IP, body []byte) vpSolo {
+				d := sflow.NewSFDecoder(bytes.NewReader(body), opts.SFlowTypeFilter)
+				datagram, err := d.SFDecode()
+				if err != nil {
+					return vpSolo{class: 'x'}
+				}
+				if len(datagram.Counters) < 1 && len(datagram.Samples) < 1 {
+					return vpSolo{class: 't'}
+				}
+				b, err := json.Marshal(datagram)
+				if err != nil {
+					return vpSolo{class: 'm'}
+				}
+				return vpSolo{class: 'd', counts: true, payload: vpColTime.ReplaceAll(b, []byte(`"ColTime":0`))}
+			}
+		}
+		vpProtos[p.name] = p
+	}
+}
+
+// start launches the real run() once and waits until its socket receives.
+// Observing UDPCount >= 1 with an atomic load also orders this goroutine after
+// run()'s plain writes to x.pool and to the template cache variable.
+func (p *vpProto) start() error {
+	if p.started {
+		return nil
+	}
+	go p.run()
+	c, err := net.DialUDP("udp4", &net.UDPAddr{IP: net.IPv4(127, 0, 0, 1)},
+		&net.UDPAddr{IP: net.IPv4(127, 0, 0, 1), Port: p.port})
+	if err != nil {
+		return err
+	}
+	defer c.Close()
+	deadline := time.Now().Add(10 * time.Second)
+	for p.udpCount() == 0 {
+		if time.Now().After(deadline) {
+			return fmt.Errorf("collector %s did not start receiving on port %d", p.name, p.port)
+		}
+		c.Write([]byte{0}) // refused (error ignored) until the collector socket is bound
+		vpWait(time.Now().Add(50*time.Millisecond), func() bool { return p.udpCount() > 0 })
+	}
+	// take the probe datagram(s) out of the UDP channel: no worker is running
+	taken := uint64(0)
+	quiet := time.Now()
+	for time.Since(quiet) < 100*time.Millisecond || taken < p.udpCount() {
+		if p.takeUDP() {
+			taken++
+			quiet = time.Now()
+			continue
+		}
+		if time.Now().After(deadline) {
+			return fmt.Errorf("collector %s: probe datagrams not queued", p.name)
+		}
+		time.Sleep(time.Millisecond)
+	}
+	p.conns = map[[4]byte]*net.UDPConn{}
+	p.started = true
+	return nil
+}
+
+func (p *vpProto) conn(src [4]byte) (*net.UDPConn, error) {
+	if c := p.conns[src]; c != nil {
+		return c, nil
+	}
+	c, err := net.DialUDP("udp4", &net.UDPAddr{IP: net.IPv4(src[0], src[1], src[2], src[3])},
+		&net.UDPAddr{IP: net.IPv4(127, 0, 0, 1), Port: p.port})
+	if err != nil {
+		return nil, err
+	}
+	p.conns[src] = c
+	return c, nil
+}
+
+func (p *vpProto) startWorkers(n int) {
+	for i := 0; i < n; i++ {
+		p.wg.Add(1)
+		go func() {
+			defer p.wg.Done()
+			p.worker()
+		}()
+	}
+	p.nWorkers = n
+}
+
+// stopWorkers closes one quit channel per running worker and waits for the
+// workers to return; false if they do not return in time.
+func (p *vpProto) stopWorkers(timeout time.Duration) bool {
+	n := p.nWorkers
+	p.nWorkers = 0
+	stopped := make(chan struct{})
+	go func() {
+		for i := 0; i < n; i++ {
+			p.stopOne()
+		}
+		p.wg.Wait()
+		close(stopped)
+	}()
+	select {
+	case <-stopped:
+		return true
+	case <-time.After(timeout):
+		atomic.StoreInt32(&vpDirty, 1)
+		return false
+	}
+}
+
+// the drainer stands in for the producer: it owns everything received from the MQ channel
+type vpDrain struct {
+	mq    chan []byte
+	reset chan chan struct{}
+	stop  chan struct{}
+	done  chan [][]byte
+}
+
+func vpStartDrain(mq chan []byte) *vpDrain {
+	d := &vpDrain{mq: mq, reset: make(chan chan struct{}), stop: make(chan struct{}), done: make(chan [][]byte, 1)}
+	go func() {
+		var got [][]byte
+		flush := func() {
+			for {
+				select {
+				case b := <-d.mq:
+					got = append(got, b)
+				default:
+					return
+				}
+			}
+		}
+		for {
+			select {
+			case b := <-d.mq:
+				got = append(got, b)
+			case ack := <-d.reset:
+				flush()
+				got = nil
+				close(ack)
+			case <-d.stop:
+				flush()
+				d.done <- got
+				return
+			}
+		}
+	}()
+	return d
+}
+
+func (d *vpDrain) discard() {
+	ack := make(chan struct{})
+	d.reset <- ack
+	<-ack
+}
+
+func (d *vpDrain) finish() [][]byte {
+	close(d.stop)
+	return <-d.done
+}
+
+func vpParseTokens(s string) ([]vpToken, error) {
+	if s == "-" {
+		return nil, nil
+	}
+	parts := strings.Split(s, ";")
+	toks := make([]vpToken, 0, len(parts))
+	for i, part := range parts {
+		f := strings.Split(part, ",")
+		if len(f) != 3 || len(f[0]) != 1 || len(f[1]) != 8 {
+			return nil, fmt.Errorf("token %d malformed", i)
+		}
+		a, err := hex.DecodeString(f[1])
+		if err != nil {
+			return nil, fmt.Errorf("token %d address: %v", i, err)
+		}
+		b, err := hex.DecodeString(f[2])
+		if err != nil || len(b) == 0 {
+			return nil, fmt.Errorf("token %d datagram hex", i)
+		}
+		t := vpToken{class: f[0][0], body: b}
+		copy(t.src[:], a)
+		toks = append(toks, t)
+	}
+	return toks, nil
+}
+
+func vpOneLine(s string) string {
+	s = strings.Replace(s, "\n", " ", -1)
+	s = strings.Replace(s, "\r", " ", -1)
+	return strings.Replace(s, "\t", " ", -1)
+}
+
+// vpRunCase runs one case line (without the TAB part) and returns implLine, verdict.
+func vpRunCase(line string, caseNo int) (string, string) {
+	f := strings.Fields(line)
+	if len(f) != 5 || f[0] != "pipeline" {
+		return "bad-case", "fail:malformed case line"
+	}
+	p := vpProtos[f[1]]
+	if p == nil {
+		return "bad-case", "fail:unknown protocol " + vpOneLine(f[1])
+	}
+	workers, err := strconv.Atoi(f[2])
+	if err != nil || workers < 1 || workers > 64 {
+		return "bad-case", "fail:workers out of range"
+	}
+	setup, err := vpParseTokens(f[3])
+	if err != nil {
+		return "bad-case", "fail:setup " + err.Error()
+	}
+	data, err := vpParseTokens(f[4])
+	if err != nil || len(data) == 0 {
+		return "bad-case", "fail:data tokens malformed"
+	}
+	if err := p.start(); err != nil {
+		return "bad-case", "fail:start " + vpOneLine(err.Error())
+	}
+	sentinel := vpToken{class: 'x', src: [4]byte{127, 0, 0, 1}, body: []byte{0}}
+	for _, t := range append(append([]vpToken{sentinel}, setup...), data...) {
+		if _, err := p.conn(t.src); err != nil {
+			return "bad-case", "fail:socket " + vpOneLine(err.Error())
+		}
+	}
+	send := func(t vpToken) error {
+		c, _ := p.conn(t.src)
+		_, err := c.Write(t.body)
+		return err
+	}
+
+	// leftovers of an earlier case (at most its sentinel) must not be mistaken for this one's
+	for p.takeUDP() {
+	}
+
+	solo := p.newSolo(filepath.Join(vpTmpDir, fmt.Sprintf("solo-%s-%d", p.name, caseNo)))
+	verdict := ""
+	fail := func(format string, a ...interface{}) {
+		if verdict == "" {
+			verdict = "fail:" + vpOneLine(fmt.Sprintf(format, a...))
+		}
+	}
+
+	drain := vpStartDrain(p.mq)
+	p.startWorkers(workers)
+
+	// ---- setup phase: one datagram at a time, templates installed before any data ----
+	for i, t := range setup {
+		u0, d0 := p.udpCount(), p.decCount()
+		if err := send(t); err != nil {
+			fail("setup-send token %d: %v", i, err)
+			break
+		}
+		ok := vpWait(time.Now().Add(vpSetupTimeout), func() bool {
+			return p.udpCount() >= u0+1 && p.decCount() >= d0+1
+		})
+		if !ok || p.udpCount() != u0+1 || p.decCount() != d0+1 {
+			fail("setup-timeout token %d udp+%d decoded+%d", i, p.udpCount()-u0, p.decCount()-d0)
+			break
+		}
+		if s := solo(vpIP(t.src), append([]byte{}, t.body...)); s.class != 't' {
+			fail("class-mismatch setup token %d class %c solo %c", i, t.class, s.class)
+		}
+	}
+	// every setup datagram has been dequeued (DecodedCount grew); stopping the
+	// workers waits for the rest of their loop bodies, then nothing is in flight
+	if !p.stopWorkers(10 * time.Second) {
+		fail("setup-workers-stuck")
+		drain.finish()
+		return "fuel", verdict
+	}
+	if verdict != "" {
+		drain.finish()
+		return "setup", verdict
+	}
+	drain.discard()
+
+	// ---- data phase ----
+	baseU, baseD := p.udpCount(), p.decCount()
+	N := uint64(len(data))
+	p.startWorkers(workers)
+	deadline := time.Now().Add(vpDataTimeout)
+	sent := uint64(0)
+	timedOut := false
+	all := append(append([]vpToken{}, data...), sentinel)
+	for _, t := range all {
+		ok := vpWait(deadline, func() bool {
+			return sent-(p.udpCount()-baseU) <= vpMaxInFlight-1 && p.udpLen() < vpMaxUDPQueue && len(p.mq) < vpMaxMQQueue
+		})
+		if !ok {
+			timedOut = true
+			break
+		}
+		if err := send(t); err != nil {
+			fail("data-send token %d: %v", sent, err)
+			break
+		}
+		sent++
+	}
+	// all N+1 counted => the N-th datagram is in the UDP channel; channel empty => all N dequeued
+	if !timedOut && verdict == "" {
+		if !vpWait(deadline, func() bool { return p.udpCount()-baseU >= N+1 }) {
+			timedOut = true
+		} else if !vpWait(deadline, func() bool { return p.udpLen() == 0 }) {
+			timedOut = true
+		}
+	}
+	stopped := p.stopWorkers(10 * time.Second)
+	published := drain.finish() // the workers have returned: nothing can be published any more
+	for p.takeUDP() {           // the sentinel, if no worker took it
+	}
+	du, dd := p.udpCount()-baseU, p.decCount()-baseD
+	if !stopped {
+		return "fuel", fmt.Sprintf("fail:hang workers did not stop sent=%d udp=%d", sent, du)
+	}
+	if verdict != "" {
+		return "send-error", verdict
+	}
+	if timedOut {
+		if du < N+1 {
+			// a lost loopback datagram is not a property violation
+			return "lost", ""
+		}
+		return fmt.Sprintf("udp=%d decoded=%d published=%d", du-1, dd, len(published)),
+			fmt.Sprintf("fail:data-timeout sent=%d udp=%d queue=%d", sent, du, p.udpLen())
+	}
+	implLine := fmt.Sprintf("udp=%d decoded=%d published=%d", du-1, dd, len(published))
+
+	// ---- oracle ----
+	expect := map[string]int{}
+	orig := map[string]int{}
+	nExpect, nCounts := 0, uint64(0)
+	for i, t := range data {
+		s := solo(vpIP(t.src), append([]byte{}, t.body...))
+		if s.class != t.class {
+			fail("class-mismatch token %d class %c solo %c", i, t.class, s.class)
+		}
+		if s.counts {
+			nCounts++
+		}
+		if s.class == 'd' {
+			expect[string(s.payload)]++
+			orig[string(s.payload)]++
+			nExpect++
+		}
+	}
+	for _, b := range published {
+		if p.name == "sflow" {
+			b = vpColTime.ReplaceAll(b, []byte(`"ColTime":0`))
+		}
+		k := string(b)
+		if expect[k] > 0 {
+			expect[k]--
+			continue
+		}
+		if orig[k] > 0 {
+			fail("duplicate len=%d %s", len(b), vpHexPrefix(b))
+		} else {
+			fail("payload-not-solo len=%d %s", len(b), vpHexPrefix(b))
+		}
+	}
+	missing := 0
+	for _, c := range expect {
+		missing += c
+	}
+	if missing > 0 {
+		fail("missing %d", missing)
+	}
+	if dd != nCounts {
+		fail("decoded-count %d want %d", dd, nCounts)
+	}
+	if len(published) != nExpect {
+		fail("published-count %d want %d", len(published), nExpect)
+	}
+	if du != N+1 {
+		fail("udp-count %d want %d (+1 sentinel)", du-1, N)
+	}
+	if verdict == "" {
+		verdict = "ok"
+	}
+	return implLine, verdict
+}
+
+// hex of the part of the payload after the common `{"AgentID":"127.0.0.x",` prefix would be
+// more telling, but the payload may be arbitrary garbage: plain prefix of the raw octets.
+func vpHexPrefix(b []byte) string {
+	if len(b) > 64 {
+		b = b[:64]
+	}
+	return hex.EncodeToString(b)
+}
+
+func TestVerifPipeline(t *testing.T) {
+	in, out := os.Getenv("VERIF_IN"), os.Getenv("VERIF_OUT")
+	if in == "" {
+		t.Skip("VERIF_IN not set")
+	}
+	if out == "" {
+		t.Fatal("VERIF_OUT not set")
+	}
+	fin, err := os.Open(in)
+	if err != nil {
+		t.Fatal(err)
+	}
+	defer fin.Close()
+	fout, err := os.OpenFile(out, os.O_WRONLY|os.O_CREATE|os.O_TRUNC, 0644)
+	if err != nil {
+		t.Fatal(err)
+	}
+	defer fout.Close()
+	emit := func(implLine, verdict string) {
+		fout.WriteString(vpOneLine(implLine) + "\t" + vpOneLine(verdict) + "\n")
+		fout.Sync()
+	}
+
+	vpSetup(filepath.Dir(out))
+	defer os.RemoveAll(vpTmpDir)
+
+	sc := bufio.NewScanner(fin)
+	sc.Buffer(make([]byte, 1<<20), 1<<26)
+	cases, failures := 0, 0
+	started := time.Now()
+	for sc.Scan() {
+		line := sc.Text()
+		if i := strings.IndexByte(line, '\t'); i >= 0 {
+			line = line[:i]
+		}
+		if line == "new" {
+			emit("new", "")
+			continue
+		}
+		cases++
+		type res struct{ out, verdict string }
+		ch := make(chan res, 1)
+		go func(no int) {
+			defer func() {
+				if p := recover(); p != nil {
+					ch <- res{"panic", "fail:panic " + vpOneLine(fmt.Sprint(p))}
+				}
+			}()
+			o, v := vpRunCase(line, no)
+			ch <- res{o, v}
+		}(cases)
+		select {
+		case r := <-ch:
+			emit(r.out, r.verdict)
+			if r.verdict != "ok" && r.verdict != "" {
+				failures++
+			}
+			if r.out == "panic" || atomic.LoadInt32(&vpDirty) != 0 {
+				// goroutines of the aborted case may still be running: not reusable
+				os.RemoveAll(vpTmpDir)
+				os.Exit(3)
+			}
+		case <-time.After(vpCaseWatchdog):
+			emit("fuel", fmt.Sprintf("fail:hang no result within %v", vpCaseWatchdog))
+			os.RemoveAll(vpTmpDir)
+			fmt.Fprintf(os.Stderr, "HANG at case %d\n", cases)
+			os.Exit(3)
+		}
+	}
+	if err := sc.Err(); err != nil {
+		t.Fatal(err)
+	}
+	t.Logf("pipeline: %d cases, %d failures, %v", cases, failures, time.Since(started).Round(time.Millisecond))
+}
